@@ -16,7 +16,9 @@ Executable, total, core Lean only.  The model says *what the Go code does*:
 * `pathJoin` is Go's `path.Join` (drop leading empty elements, join with `/`,
   `path.Clean`); `clean` works on components with a stack, which is the
   documented meaning of `path.Clean` (the correspondence run checks `pathJoin`
-  against the real `path.Join` on its own stream of inputs).
+  against the real `path.Join` on its own stream of inputs).  Whether the
+  ByteStream formatters use it, or a plain join, is read off the source
+  (`formatterCleans`).
 * Tables (supported functions, hash sizes, inference by hash length, reserved
   keywords, compressors, midfixes) come from `BB.Gen.Digest`, regenerated from
   /repo on every run.
@@ -51,6 +53,8 @@ inductive Err
   | varintOverflow  -- binary: varint overflows a 64-bit integer
   | panic           -- the Go code would panic
   deriving DecidableEq, Repr
+
+deriving instance DecidableEq for Except
 
 def Err.label : Err → String
   | .scheme => "InvalidArgument scheme"
@@ -276,29 +280,38 @@ structure Unpacked where
 
 def notDash (c : Char) : Bool := !(c = '-')
 
-/-- `Digest.unpack`. -/
-def unpack (v : Str) : Option Unpacked :=
+/-- The function digits at the start of the packed string: `v[0]-'0'`, and `v[1]` as a second
+digit unless it is the separator.  Returns the function and where the hash starts. -/
+def fnDigits (v : Str) : Option (Nat × Nat) :=
   match v with
   | c0 :: c1 :: _ =>
     match digitVal c0 with
     | none => none
     | some d0 =>
-      let fnHs : Option (Nat × Nat) :=
-        if c1 = '-' then some (d0, 2) else (digitVal c1).map fun d1 => (d0 * 10 + d1, 3)
-      match fnHs with
+      if c1 = '-' then some (d0, 2) else (digitVal c1).map fun d1 => (d0 * 10 + d1, 3)
+  | _ => none
+
+/-- `for v[i] != '-' { i++ }` from index `start`: the bytes skipped and the index of the `-`;
+`none` when the scan runs off the end (index out of range in Go). -/
+def scanFrom (v : Str) (start : Nat) : Option (Str × Nat) :=
+  let tail := v.drop start
+  let run := tail.takeWhile notDash
+  if run.length = tail.length then none else some (run, start + run.length)
+
+/-- `Digest.unpack`. -/
+def unpack (v : Str) : Option Unpacked :=
+  match fnDigits v with
+  | none => none
+  | some (fn, hs) =>
+    match scanFrom v shortestSupportedHashStringSize with
+    | none => none
+    | some (_, hashEnd) =>
+      match scanFrom v (hashEnd + 1) with
       | none => none
-      | some (fn, hs) =>
-        let tail := v.drop shortestSupportedHashStringSize
-        let run := tail.takeWhile notDash
-        if run.length = tail.length then none else
-        let hashEnd := shortestSupportedHashStringSize + run.length
-        let tail2 := v.drop (hashEnd + 1)
-        let digits := tail2.takeWhile notDash
-        if digits.length = tail2.length then none else
+      | some (digits, sizeEnd) =>
         match decValAux digits 0 with
         | none => none
-        | some size => some ⟨fn, hs, hashEnd, size, hashEnd + 1 + digits.length⟩
-  | _ => none
+        | some size => some ⟨fn, hs, hashEnd, size, sizeEnd⟩
 
 def hashOf (v : Str) (u : Unpacked) : Str := (v.take u.hashEnd).drop u.hashStart
 def instOf (v : Str) (u : Unpacked) : Str := v.drop (u.sizeEnd + 1)
@@ -311,6 +324,13 @@ def getSizeBytes (v : Str) : Option Nat := (unpack v).map (·.size)
 def getHashString (v : Str) : Option Str := (unpack v).map (hashOf v)
 /-- `GetDigestFunction().GetEnumValue()` -/
 def getFunctionEnum (v : Str) : Option Nat := (unpack v).map (·.fn)
+
+/-- `GetDigestFunction`: the bare function is re-derived with `getBareFunction(fn, 0)`, the
+instance name is cut out of the packed string. -/
+def getDigestFunction (v : Str) : Option (BareFn × Str) :=
+  match unpack v with
+  | none => none
+  | some u => (getBareFunction u.fn 0).map fun f => (f, instOf v u)
 
 /-- `GetKey(format)`; `withInstance = true` is `KeyWithInstance`. -/
 def getKey (v : Str) (withInstance : Bool) : Option Str :=
@@ -328,15 +348,28 @@ def newDigestFromProto (f : BareFn) (inst : Str) (p : Option (Str × Int)) : Exc
 
 /-! ### ByteStream resource names -/
 
-/-- `GetByteStreamReadPath(compressor)`. -/
-def readPath (v : Str) (compressor : Nat) : Option Str :=
+/-- How the formatters join their elements.  `cleans = true`: `path.Join` (drops empty elements,
+joins with `/`, then `path.Clean`, which removes `.` and resolves `..`).  `cleans = false`: the
+plain join of the non-empty elements (the repair of the defect found by C20).  Which of the two
+the code under test does is read off its source on every run (`BB.Gen.Digest.formatterCleans`). -/
+def formatPathWith (cleans : Bool) (elems : List Str) : Str :=
+  if cleans then pathJoin elems else join (elems.filter (fun e => !e.isEmpty))
+
+def readPathWith (cleans : Bool) (v : Str) (compressor : Nat) : Option Str :=
   (unpack v).map fun u =>
-    pathJoin [instOf v u, compressorMidfix compressor, fnMidfix u.fn, hashOf v u, toDec u.size]
+    formatPathWith cleans [instOf v u, compressorMidfix compressor, fnMidfix u.fn, hashOf v u, toDec u.size]
+
+def writePathWith (cleans : Bool) (v : Str) (uuid : Str) (compressor : Nat) : Option Str :=
+  (unpack v).map fun u =>
+    formatPathWith cleans
+      [instOf v u, kwUploads, uuid, compressorMidfix compressor, fnMidfix u.fn, hashOf v u, toDec u.size]
+
+/-- `GetByteStreamReadPath(compressor)`. -/
+def readPath (v : Str) (compressor : Nat) : Option Str := readPathWith formatterCleans v compressor
 
 /-- `GetByteStreamWritePath(uuid, compressor)`; `uuid` is `uuid.String()`. -/
 def writePath (v : Str) (uuid : Str) (compressor : Nat) : Option Str :=
-  (unpack v).map fun u =>
-    pathJoin [instOf v u, kwUploads, uuid, compressorMidfix compressor, fnMidfix u.fn, hashOf v u, toDec u.size]
+  writePathWith formatterCleans v uuid compressor
 
 /-- The loops `for fields[split] != marker { split++; if split > len(fields)-k { error } }`.
 Returns the fields before the marker and the fields from the marker on. -/
@@ -347,53 +380,66 @@ def findSplit (isMarker : Str → Bool) (k : Nat) : List Str → List Str → Ex
     else if rest.length < k then .error .scheme
     else findSplit isMarker k (f :: hdrRev) rest
 
+/-- Remove the leading compression scheme name: `switch trailer[0] { case "blobs": …; case
+"compressed-blobs": … }` (no default: anything else is left alone and means IDENTITY). -/
+def stripCompression (trailer : List Str) : Except Err (Nat × List Str) :=
+  match trailer with
+  | [] => .error .panic
+  | t0 :: rest =>
+    if t0 = kwBlobs then .ok (0, rest)
+    else if t0 = kwCompressedBlobs then
+      match rest with
+      | [] => .error .panic
+      | name :: rest' =>
+        match compressorByName name with
+        | none => .error .compressor
+        | some c => .ok (c, rest')
+    else .ok (0, trailer)
+
+/-- Explicit digest function name, or inference from the length of the hash field. -/
+def resolveFunction (trailer : List Str) : Except Err (BareFn × List Str) :=
+  match trailer with
+  | [] => .error .panic
+  | t0 :: rest =>
+    match fnByName t0 with
+    | some bf => .ok (bf, rest)
+    | none =>
+      match getBareFunction 0 t0.length with
+      | some bf => .ok (bf, trailer)
+      | none => .error .function
+
+/-- Hash and size fields. -/
+def finishDigest (bf : BareFn) (inst : Str) (compressor : Nat) (trailer : List Str) : Except Err (Str × Nat) :=
+  match trailer with
+  | h :: sz :: _ =>
+    match parseInt64 sz with
+    | none => .error .blobSize
+    | some n =>
+      match newDigest bf inst h n with
+      | .error e => .error e
+      | .ok d => .ok (d, compressor)
+  | _ => .error .scheme
+
 /-- `newDigestFromByteStreamPathCommon`. -/
 def common (header trailer : List Str) : Except Err (Str × Nat) :=
   match instFromComponents header with
   | .error e => .error e
   | .ok inst =>
-    -- remove the leading compression scheme name (a `switch` without default)
-    let step1 : Except Err (Nat × List Str) :=
-      match trailer with
-      | [] => .error .panic
-      | t0 :: rest =>
-        if t0 = kwBlobs then .ok (0, rest)
-        else if t0 = kwCompressedBlobs then
-          match rest with
-          | [] => .error .panic
-          | name :: rest' =>
-            match compressorByName name with
-            | none => .error .compressor
-            | some c => .ok (c, rest')
-        else .ok (0, trailer)
-    match step1 with
+    match stripCompression trailer with
     | .error e => .error e
     | .ok (compressor, trailer) =>
-      match trailer with
-      | [] => .error .panic
-      | t0 :: rest =>
-        let bfTr : Option BareFn × List Str :=
-          match fnByName t0 with
-          | some bf => (some bf, rest)
-          | none => (getBareFunction 0 t0.length, trailer)
-        match bfTr.1 with
-        | none => .error .function
-        | some bf =>
-          match bfTr.2 with
-          | h :: sz :: _ =>
-            match parseInt64 sz with
-            | none => .error .blobSize
-            | some n =>
-              match newDigest bf inst h n with
-              | .error e => .error e
-              | .ok d => .ok (d, compressor)
-          | _ => .error .scheme
+      match resolveFunction trailer with
+      | .error e => .error e
+      | .ok (bf, trailer) => finishDigest bf inst compressor trailer
+
+def isBlobsMarker (f : Str) : Bool := decide (f = kwBlobs) || decide (f = kwCompressedBlobs)
+def isUploadsMarker (f : Str) : Bool := decide (f = kwUploads)
 
 /-- `NewDigestFromByteStreamReadPath`. -/
 def parseRead (p : Str) : Except Err (Str × Nat) :=
   let fs := fields p
   if fs.length < 3 then .error .scheme else
-  match findSplit (fun f => f = kwBlobs ∨ f = kwCompressedBlobs) 3 [] fs with
+  match findSplit isBlobsMarker 3 [] fs with
   | .error e => .error e
   | .ok (hdr, tr) => common hdr tr
 
@@ -401,7 +447,7 @@ def parseRead (p : Str) : Except Err (Str × Nat) :=
 def parseWrite (p : Str) : Except Err (Str × Nat) :=
   let fs := fields p
   if fs.length < 5 then .error .scheme else
-  match findSplit (fun f => f = kwUploads) 5 [] fs with
+  match findSplit isUploadsMarker 5 [] fs with
   | .error e => .error e
   | .ok (hdr, tr) => common hdr (tr.drop 2)
 
